@@ -6,7 +6,7 @@ SEED=${1:?seed id}; TIER=${2:-quick}; PROP=${3:-${SEED%%-*}}
 cd /verif
 if ! git -C /repo diff --quiet; then echo "/repo has uncommitted changes, refusing"; exit 3; fi
 git -C /repo apply /verif/seeded/$SEED/patch.diff || exit 3
-trap 'git -C /repo checkout -- . ; git -C /repo clean -fdq' EXIT
+trap 'git -C /repo checkout -- . ; git -C /repo clean -fdq; git -C /verif checkout -- evidence/$PROP.json' EXIT
 VERIF_SEEDRUN=1 ./check $PROP $TIER > /tmp/seedrun.$SEED.$PROP.log 2>&1
 rc=$?
 grep -c '^VIOLATION' /tmp/seedrun.$SEED.$PROP.log | sed "s/^/$SEED $PROP $TIER exit=$rc violations=/"
